@@ -1920,6 +1920,8 @@ def run(ctx):
                       'concrete tables accept the base signature; inherited conveniences forward their arguments')
     d1_schema(ctx)
     d1_inserts(ctx)
+    from .common import sql_boolop_lint
+    sql_boolop_lint(ctx, 'C14-D1')
     d2_session(ctx)
     d2_checkout(ctx, 'check_out', 'QueuedURL', 'P0', True)
     d2_checkout(ctx, 'convert_check_out', 'QueuedFile', 'todo', False)
